@@ -683,3 +683,52 @@ _reg("C05", PS.evaluate, PS.reproduce, "fault_enumeration",
                         "other languages only in line soups)"],
      coverage_extra={"enumeration": "complete over line positions x fault kinds for each sampled document"})
 PROPS["C05"]["assumptions"] = [a for a in PROPS["C05"]["assumptions"] if "reference model" not in a and "user code" not in a]
+
+
+def prof_C11(d, rng):
+    d["steplib"] = "rich"
+    d["p_undefined"] = rng.choice([0.0, 0.05, 0.15])
+    d["autoretry"] = False
+    d["nested"] = rng.random() < 0.2
+
+
+# --- C11: registry history machine + dispatch through real runs ----------------
+from . import registrysim as RS   # noqa: E402
+
+
+def c11_evaluate(seed, hashseed, root, stats):
+    out, d1 = RS.evaluate(seed, hashseed, root, stats)
+    world = W.gen_world(seed, profile=prof_C11)
+    world["hashseed"] = hashseed
+    vs, hist, pred = run_and_judge("C11", world, root, stats, [O.check_C11_runs])
+    n_steps = sum(1 for e in hist["events"] if e["kind"] == "step" and e["depth"] == 0)
+    stats.probe("step-dispatches-through-Step.run", n_steps)
+    stats.probe("converter-faults-in-runs", hist.get("fired", {}).get("converter_raises", 0))
+    out = list(out) + [(world, v, None) for v in vs if v["prop"] == "C11"]
+    return out, hashlib.sha1((d1 + R.history_digest(hist)).encode("ascii")).hexdigest()
+
+
+def c11_reproduce(world, root, ctx):
+    if world.get("registry_case"):
+        return RS.reproduce(world, root, ctx)
+    vs, _h, _p = run_and_judge("C11", world, root, None, [O.check_C11_runs])
+    return [v for v in vs if v["prop"] == "C11"]
+
+
+def c11_minimise(world, violation, spec, root, ctx, budget=300):
+    if world.get("registry_case"):
+        return world
+    from . import minimise as MIN
+    return MIN.ddmin(world, violation, spec, root, ctx, budget)
+
+
+_reg("C11", c11_evaluate, c11_reproduce, "exploration",
+     "registration histories (type, pattern, function) over parse / cfparse / re matchers with use_step_matcher switches, "
+     "register_type converters (one of which faults on a value), deliberate same-type and cross-type overlaps, module "
+     "re-loads, followed by lookups (step type x text: exact instance, wrong case, extra prefix/suffix, changed literal, "
+     "value that makes the converter raise) against a fresh real StepRegistry, compared with a reference registry (ordered "
+     "lists + the model's own anchored regexes): chosen definition, arguments (value, name, start/end, original), "
+     "AmbiguousStep exactly when required; plus run-sim worlds where the shim records which definition was dispatched by "
+     "the real Step.run with which positional/keyword arguments. evaluations = registry operations + runs; distinct = "
+     "distinct operation/outcome digests",
+     {"quick": 700, "thorough": 15000}, minimise=c11_minimise)
